@@ -3,6 +3,7 @@
 import json
 import math
 import random
+import re
 import time
 from typing import Any, Dict, Optional
 
@@ -24,8 +25,62 @@ from .values import (
     js_pow,
     norm_number,
     to_integer,
+    JS_WHITESPACE,
 )
 from .errors import JSError, MemoryLimitError, TimeLimitError
+
+_FLOAT_PREFIX_RE = re.compile(
+    r"[+-]?(?:Infinity|[0-9]+\.?[0-9]*(?:[eE][+-]?[0-9]+)?|\.[0-9]+(?:[eE][+-]?[0-9]+)?)"
+)
+_DIGIT_VALUES = {ch: i for i, ch in enumerate("0123456789abcdefghijklmnopqrstuvwxyz")}
+
+
+def js_parse_int(*args):
+    """parseInt(string, radix): leading whitespace and sign, optional 0x prefix, then the
+    longest run of digits valid in the radix; NaN if there is none or the radix is invalid."""
+    text = (to_string(args[0]) if args else "undefined").lstrip(JS_WHITESPACE)
+    sign = 1
+    if text[:1] in ("+", "-"):
+        if text[0] == "-":
+            sign = -1
+        text = text[1:]
+    radix = to_number(args[1]) if len(args) > 1 else 0
+    if isinstance(radix, float) and (math.isnan(radix) or math.isinf(radix)):
+        radix = 0
+    radix = int(radix) & 0xFFFFFFFF  # ToInt32
+    if radix >= 0x80000000:
+        radix -= 0x100000000
+    strip_prefix = True
+    if radix != 0:
+        if radix < 2 or radix > 36:
+            return float("nan")
+        strip_prefix = radix == 16
+    else:
+        radix = 10
+    if strip_prefix and text[:2] in ("0x", "0X"):
+        text = text[2:]
+        radix = 16
+    end = 0
+    while end < len(text) and _DIGIT_VALUES.get(text[end].lower(), 99) < radix and text[end].isascii():
+        end += 1
+    if end == 0:
+        return float("nan")
+    value = int(text[:end], radix)
+    if value == 0 and sign < 0:
+        return -0.0
+    return norm_number(sign * value)
+
+
+def js_parse_float(*args):
+    """parseFloat(string): the longest prefix that is a decimal literal (or Infinity)."""
+    text = (to_string(args[0]) if args else "undefined").lstrip(JS_WHITESPACE)
+    match = _FLOAT_PREFIX_RE.match(text)
+    if not match:
+        return float("nan")
+    literal = match.group(0)
+    if literal.lstrip("+-") == "Infinity":
+        return float("-inf") if literal[0] == "-" else float("inf")
+    return float(literal)
 
 
 class Context:
@@ -842,72 +897,10 @@ class Context:
             return x == int(x)
 
         def parseInt_fn(*args):
-            s = to_string(args[0]) if args else ""
-            radix = int(to_number(args[1])) if len(args) > 1 else 10
-            if radix == 0:
-                radix = 10
-            s = s.strip()
-            if not s:
-                return float("nan")
-            # Handle leading sign
-            sign = 1
-            if s.startswith("-"):
-                sign = -1
-                s = s[1:]
-            elif s.startswith("+"):
-                s = s[1:]
-            # Handle 0x prefix for hex
-            if s.startswith("0x") or s.startswith("0X"):
-                radix = 16
-                s = s[2:]
-            # Parse digits
-            result = 0
-            found = False
-            for ch in s:
-                if ch.isdigit():
-                    digit = ord(ch) - ord("0")
-                elif ch.isalpha():
-                    digit = ord(ch.lower()) - ord("a") + 10
-                else:
-                    break
-                if digit >= radix:
-                    break
-                result = result * radix + digit
-                found = True
-            if not found:
-                return float("nan")
-            return sign * result
+            return js_parse_int(*args)
 
         def parseFloat_fn(*args):
-            s = to_string(args[0]) if args else ""
-            s = s.strip()
-            if not s:
-                return float("nan")
-            # Find the longest valid float prefix
-            i = 0
-            has_dot = False
-            has_exp = False
-            if s[i] in "+-":
-                i += 1
-            while i < len(s):
-                if s[i].isdigit():
-                    i += 1
-                elif s[i] == "." and not has_dot:
-                    has_dot = True
-                    i += 1
-                elif s[i] in "eE" and not has_exp:
-                    has_exp = True
-                    i += 1
-                    if i < len(s) and s[i] in "+-":
-                        i += 1
-                else:
-                    break
-            if i == 0:
-                return float("nan")
-            try:
-                return float(s[:i])
-            except ValueError:
-                return float("nan")
+            return js_parse_float(*args)
 
         num_constructor.set("isNaN", isNaN_fn)
         num_constructor.set("isFinite", isFinite_fn)
@@ -1210,78 +1203,11 @@ class Context:
 
     def _global_parseint(self, *args):
         """Global parseInt."""
-        s = to_string(args[0]) if args else ""
-        radix = int(to_number(args[1])) if len(args) > 1 else 10
-        if radix == 0:
-            radix = 10
-        s = s.strip()
-        if not s:
-            return float("nan")
-        sign = 1
-        if s.startswith("-"):
-            sign = -1
-            s = s[1:]
-        elif s.startswith("+"):
-            s = s[1:]
-        if s.startswith("0x") or s.startswith("0X"):
-            radix = 16
-            s = s[2:]
-        result = 0
-        found = False
-        for ch in s:
-            if ch.isdigit():
-                digit = ord(ch) - ord("0")
-            elif ch.isalpha():
-                digit = ord(ch.lower()) - ord("a") + 10
-            else:
-                break
-            if digit >= radix:
-                break
-            result = result * radix + digit
-            found = True
-        if not found:
-            return float("nan")
-        return sign * result
+        return js_parse_int(*args)
 
     def _global_parsefloat(self, *args):
         """Global parseFloat."""
-        s = to_string(args[0]) if args else ""
-        s = s.strip()
-        if not s:
-            return float("nan")
-
-        # Handle Infinity
-        if s.startswith("Infinity"):
-            return float("inf")
-        if s.startswith("-Infinity"):
-            return float("-inf")
-        if s.startswith("+Infinity"):
-            return float("inf")
-
-        i = 0
-        has_dot = False
-        has_exp = False
-        if s[i] in "+-":
-            i += 1
-        while i < len(s):
-            if s[i].isdigit():
-                i += 1
-            elif s[i] == "." and not has_dot:
-                has_dot = True
-                i += 1
-            elif s[i] in "eE" and not has_exp:
-                has_exp = True
-                i += 1
-                if i < len(s) and s[i] in "+-":
-                    i += 1
-            else:
-                break
-        if i == 0:
-            return float("nan")
-        try:
-            return float(s[:i])
-        except ValueError:
-            return float("nan")
+        return js_parse_float(*args)
 
     def eval(self, code: str) -> Any:
         """Evaluate JavaScript code and return the result.
